@@ -19,6 +19,12 @@ operation, so in both cases control continues at the fence behind the try/catch 
 throwing path is the same sequence of program points `wFence, wDoneInc, wBusyDec, wRelock,
 wNotify`, entered with the note `job!id` instead of `job-id` and recorded in the ghost
 list `thrown`.  Ids are given in push order.
+The destruction of the job object ("destroy job by closing scope", after the try/catch and before
+the fence) is a program point of its own: the calls of `cfg.dprog code` — what the destructor of the
+closure of a job with that code does (enqueue a continuation, read `done()`/`idle()`) — are executed
+by the worker after the body, still inside the busy section and without the mutex; the note `job~id`
+and the ghost list `destroyed` mark its end.  Jobs still queued when `~ThreadPool` destroys the
+queue are recorded in `dropped`.
 `cfg.initYields`: scheduling points inside the `init_thread` callback a worker runs before
 it first takes the mutex (`wInit`): a worker that is neither idle nor busy.
 
